@@ -136,7 +136,7 @@ def main(argv=None):
         jobs = []
         if args.replay:
             rp = json.load(open(args.replay))
-            hashseeds = [0, 1, 2, 3] if rp["case"].get("kind") == "determinism" else [0]
+            hashseeds = [0, 1, 2, 3] if rp["case"].get("kind") == "determinism" else [rp.get("hashseed", 0)]
             for hs in hashseeds:
                 jobs.append({"prop": prop, "tier": tier, "seed": seed, "mode": "replay", "case": rp["case"], "timeout": 600, "hashseed": hs})
         else:
@@ -146,7 +146,9 @@ def main(argv=None):
                 jobs.append(
                     {
                         "prop": prop, "tier": tier, "seed": seed, "shard": i, "mode": "run", "spec": spec,
-                        "timeout": tmo, "hashseed": spec.pop("_hashseed", 0),
+                        # string hashing (set/dict iteration order of names) differs between shards; a violation
+                        # records the seed of its shard and is replayed under the same one
+                        "timeout": tmo, "hashseed": spec.pop("_hashseed", i % 4),
                         "budget_s": spec.pop("_budget_s", None), "canaries": i == 0 or spec.get("_canaries", False),
                     }
                 )
@@ -171,7 +173,9 @@ def main(argv=None):
         for s in r.get("samples", []):
             if len(samples) < 6:
                 samples.append(s)
-        violations.extend(r.get("violations", []))
+        for v in r.get("violations", []):
+            v.setdefault("hashseed", jobs[i].get("hashseed", 0))
+            violations.append(v)
         known.extend(r.get("known", []))
         notes.extend(r.get("notes", []))
         inconcl.extend(r.get("inconclusive", []))
